@@ -670,6 +670,7 @@ def canary(reals) -> int:
     return n
 
 
+MAX_FIELDS = 250_000
 JVM = ["-Xmx3g", "-XX:ParallelGCThreads=2", "-XX:CICompilerCount=2"]
 
 
@@ -678,8 +679,20 @@ def validate(traces: list, batch: int, parallel: int) -> tuple[list[dict], int, 
     rundir = tlc.OUT / "traces" / f"c19-{uuid.uuid4().hex[:8]}"
     rundir.mkdir(parents=True, exist_ok=True)
     jobs, spans = [], []
-    for i in range(0, len(traces), batch):
-        part = traces[i : i + batch]
+    # a batch holds at most `batch` traces and at most MAX_FIELDS observation fields: traces of
+    # accepted specifiers (the settings passes are almost only those) are ~40 times heavier
+    # than rejections, and a JVM fed 20 000 of them thrashes its heap
+    cuts, start, weight = [], 0, 0
+    for i, t in enumerate(traces):
+        w = sum(len(o) for o in t["u"])
+        if i > start and (i - start >= batch or weight + w > MAX_FIELDS):
+            cuts.append((start, i))
+            start, weight = i, 0
+        weight += w
+    if traces:
+        cuts.append((start, len(traces)))
+    for i, j in cuts:
+        part = traces[i:j]
         f = tlc.write_json(rundir / f"b{i}.json", part)
         spans.append((i, len(part)))
         jobs.append(dict(spec="Trace_FormatSpec", cfg="Trace_FormatSpec.cfg", workers=2, timeout=840,
